@@ -1003,6 +1003,9 @@ class EvalMixin:
                 diff = self.binop(ast.Sub(), a, b)
                 cnt = self.binop(ast.FloorDiv(), self.binop(ast.Add(), diff, -s - 1), -s)
             return cnt, (lambda k: self.binop(ast.Add(), a, self.binop(ast.Mult(), k, s))), True
+        if isinstance(v, tuple) and len(v) == 2 and v[0] == "$enumerate":
+            cnt, el, clamp = self.seq_descriptor(v[1])
+            return cnt, (lambda k: (k, el(k))), clamp
         if is_bytes(v):
             return self.length(v), (lambda k: self.bytes_index(v, k)), False
         if isinstance(v, Ref) and isinstance(self.p.deref(v), HByteArray):
@@ -1088,6 +1091,13 @@ class EvalMixin:
             if len(args) == 2:
                 return ("$range", args[0], args[1], 1)
             return ("$range", args[0], args[1], args[2])
+        if isinstance(node, ast.Call) and isinstance(node.func, ast.Name) and node.func.id == "enumerate" and "enumerate" not in fr.env \
+                and len(node.args) == 1 and not node.keywords:
+            inner = self.eval(node.args[0], fr)
+            d = self.seq_descriptor(inner)
+            if d is not None and not isinstance(d[0], int):
+                return ("$enumerate", inner)
+            return self.call(enumerate, [inner], {}, node)
         return self.eval(node, fr)
 
     def havoc_like(self, name, cur, hint=None):
